@@ -30,6 +30,13 @@ def families(mod):
     return {k: _Fam(k, v) for k, v in getattr(mod, "FAMILIES", {}).items()}
 
 
+def tagged(fm, cases):
+    if isinstance(fm, _Fam):
+        for c in cases:
+            c["family"] = fm.name
+    return cases
+
+
 def fam_of(mod, case):
     f = case.get("family")
     return families(mod)[f] if f and f in getattr(mod, "FAMILIES", {}) else mod
@@ -77,7 +84,7 @@ def shrink(mod, case, res, budget_s=60):
             if getattr(mod, "generate", None) and fm is mod:
                 reran = mod.rerun(batch)
             else:
-                reran = core.run_harness(fm.HARNESS, replay=fn, extra=getattr(fm, "HARNESS_EXTRA", []))
+                reran = tagged(fm, core.run_harness(fm.HARNESS, replay=fn, extra=getattr(fm, "HARNESS_EXTRA", [])))
             rr = evaluate(mod, reran)
         except Exception:
             break
@@ -104,7 +111,7 @@ def generic_search(mod, tier, seed, known, budget_s=240):
             cs = core.run_harness(mod.HARNESS, seed=s2, n=mod.N[tier], extra=getattr(mod, "HARNESS_EXTRA", []),
                                   timeout=getattr(mod, "HARNESS_TIMEOUT", 1800))
             for fm in families(mod).values():
-                cs += core.run_harness(fm.HARNESS, seed=s2, n=fm.N[tier], extra=getattr(fm, "HARNESS_EXTRA", []))
+                cs += tagged(fm, core.run_harness(fm.HARNESS, seed=s2, n=fm.N[tier], extra=getattr(fm, "HARNESS_EXTRA", [])))
             keep = getattr(mod, "keep", lambda c: True)
             cs = [c for c in cs if keep(c)]
             rs = evaluate(mod, cs)
@@ -150,11 +157,11 @@ def standard_check(mod, tier, seed, replay=None):
                 fn = os.path.join(core.scratch(), "replay-in.jsonl")
                 with open(fn, "w") as f:
                     f.write(json.dumps(rp["input"]) + "\n")
-                cases = core.run_harness(fm.HARNESS, replay=fn, extra=getattr(fm, "HARNESS_EXTRA", []))
+                cases = tagged(fm, core.run_harness(fm.HARNESS, replay=fn, extra=getattr(fm, "HARNESS_EXTRA", [])))
         elif gen:
             cases = gen(tier, seed)
             for fm in families(mod).values():
-                cases += core.run_harness(fm.HARNESS, seed=seed, n=fm.N[tier], extra=getattr(fm, "HARNESS_EXTRA", []))
+                cases += tagged(fm, core.run_harness(fm.HARNESS, seed=seed, n=fm.N[tier], extra=getattr(fm, "HARNESS_EXTRA", [])))
         else:
             corpus = load_corpus(mod)
             for fn in corpus:
@@ -166,7 +173,7 @@ def standard_check(mod, tier, seed, replay=None):
             cases += core.run_harness(mod.HARNESS, seed=seed, n=n, extra=getattr(mod, "HARNESS_EXTRA", []),
                                       timeout=getattr(mod, "HARNESS_TIMEOUT", 1800))
             for fm in families(mod).values():
-                cases += core.run_harness(fm.HARNESS, seed=seed, n=fm.N[tier], extra=getattr(fm, "HARNESS_EXTRA", []))
+                cases += tagged(fm, core.run_harness(fm.HARNESS, seed=seed, n=fm.N[tier], extra=getattr(fm, "HARNESS_EXTRA", [])))
         keep = getattr(mod, "keep", lambda c: True)
         dropped = [c for c in cases if not keep(c)]
         cases = [c for c in cases if keep(c)]
